@@ -310,4 +310,241 @@ theorem pair_arith (hi lo : Nat) (hh : 0xD800 ≤ hi ∧ hi ≤ 0xDBFF) (hl : 0x
   rw [xorD800 hi hh, and3FF, Nat.shiftLeft_eq]
   omega
 
+/-! ### whole strings: token sequences -/
+
+theorem unEscapeB_simple (w e v : Nat) (s pend st : List Nat) (n : Nat) (h : simpleOut e = some v) :
+    unEscapeB w (92 :: e :: s) pend st n = unEscapeB w s [] (st ++ pend ++ [v]) (n + 2) := by
+  unfold simpleOut at h
+  rw [unEscapeB.eq_def]
+  simp only []
+  split at h
+  · injection h with h; subst h; rename_i hc; simp [hc]
+  rename_i n1; rw [if_neg n1]
+  split at h
+  · injection h with h; subst h; rename_i hc; subst hc; simp
+  split at h
+  · injection h with h; subst h; rename_i hc; subst hc; simp
+  split at h
+  · injection h with h; subst h; rename_i hc; subst hc; simp
+  split at h
+  · injection h with h; subst h; rename_i hc; subst hc; simp
+  split at h
+  · injection h with h; subst h; rename_i hc; subst hc; simp
+  · cases h
+
+/-- Effect of one token on (pending block, stream). -/
+def Tok.step (w : Nat) (t : Tok) (p : List Nat × List Nat) : List Nat × List Nat :=
+  if t.isPlainTok then (p.1 ++ t.out w, p.2) else ([], p.2 ++ p.1 ++ t.out w)
+
+theorem unEscapeB_tok (w : Nat) (t : Tok) (ht : t.ok = true) (s pend st : List Nat) (n : Nat) :
+    unEscapeB w (t.src ++ s) pend st n =
+      unEscapeB w s (t.step w (pend, st)).1 (t.step w (pend, st)).2 (n + t.src.length) := by
+  cases t with
+  | plain c =>
+    simp only [Tok.ok] at ht
+    simp [Tok.src, Tok.step, Tok.isPlainTok, Tok.out, unEscapeB_plain_cons w c s pend st n ht]
+  | simple e =>
+    simp only [Tok.ok, Option.isSome_iff_exists] at ht
+    obtain ⟨v, hv⟩ := ht
+    simp [Tok.src, Tok.step, Tok.isPlainTok, Tok.out, unEscapeB_simple w e v s pend st n hv, hv]
+  | u e a b x d =>
+    simp only [Tok.ok, Bool.and_eq_true, Bool.or_eq_true, beq_iff_eq, bne_iff_ne] at ht
+    simp [Tok.src, Tok.step, Tok.isPlainTok, Tok.out, unEscapeB_u w e a b x d s pend st n ht.1 ht.2]
+  | pair e a b x d y z a2 b2 x2 d2 =>
+    simp only [Tok.ok, Bool.and_eq_true, Bool.or_eq_true, beq_iff_eq] at ht
+    simp [Tok.src, Tok.step, Tok.isPlainTok, Tok.out, pairCode,
+      unEscapeB_pair w e a b x d y z a2 b2 x2 d2 s pend st n ht.1 ht.2]
+
+theorem unEscapeB_toks (w : Nat) (ts : List Tok) (h : ∀ t ∈ ts, t.ok = true) :
+    ∀ (s pend st : List Nat) (n : Nat),
+      unEscapeB w (ts.flatMap Tok.src ++ s) pend st n =
+        unEscapeB w s (ts.foldl (fun p t => t.step w p) (pend, st)).1
+          (ts.foldl (fun p t => t.step w p) (pend, st)).2 (n + (ts.flatMap Tok.src).length) := by
+  induction ts with
+  | nil => intros; simp
+  | cons t r ih =>
+    intro s pend st n
+    rw [List.flatMap_cons, List.append_assoc, unEscapeB_tok w t (h t (by simp)),
+      ih (fun t' ht' => h t' (by simp [ht']))]
+    simp [Nat.add_assoc]
+
+theorem Tok.out_ne_nil (w : Nat) (t : Tok) (ht : t.ok = true) : t.out w ≠ [] := by
+  cases t with
+  | plain c => simp [Tok.out]
+  | simple e =>
+    simp only [Tok.ok, Option.isSome_iff_exists] at ht
+    obtain ⟨v, hv⟩ := ht
+    simp [Tok.out, hv]
+  | u e a b x d => exact toUTF_ne_nil _ _
+  | pair e a b x d y z a2 b2 x2 d2 => exact toUTF_ne_nil _ _
+
+/-- What the fold leaves: stream ++ pending is the concatenated output; the stream stays as it
+was exactly when every token was plain (the routine then never touches the stream). -/
+theorem fold_step (w : Nat) (ts : List Tok) (h : ∀ t ∈ ts, t.ok = true) : ∀ (pend st : List Nat),
+    let r := ts.foldl (fun p t => t.step w p) (pend, st)
+    r.2 ++ r.1 = st ++ pend ++ ts.flatMap (Tok.out w) ∧
+    (ts.all Tok.isPlainTok = true → r.2 = st) ∧ (ts.all Tok.isPlainTok = false → r.2 ≠ []) := by
+  induction ts with
+  | nil => intro pend st; simp
+  | cons t r ih =>
+    intro pend st
+    have hr := ih (fun t' ht' => h t' (by simp [ht']))
+    simp only [List.foldl_cons, List.flatMap_cons, List.all_cons]
+    cases hp : t.isPlainTok with
+    | true =>
+      have hs : Tok.step w t (pend, st) = (pend ++ t.out w, st) := by simp [Tok.step, hp]
+      have := hr (pend ++ t.out w) st
+      rw [hs]
+      simp only [Bool.true_and]
+      exact ⟨by rw [this.1]; simp, this.2.1, this.2.2⟩
+    | false =>
+      have hs : Tok.step w t (pend, st) = ([], st ++ pend ++ t.out w) := by simp [Tok.step, hp]
+      have := hr [] (st ++ pend ++ t.out w)
+      rw [hs]
+      simp only [Bool.false_and]
+      refine ⟨by rw [this.1]; simp, by simp, ?_⟩
+      intro _
+      have hne := Tok.out_ne_nil w t (h t (by simp))
+      by_cases ha : r.all Tok.isPlainTok = true
+      · rw [this.2.1 ha]; simp [hne]
+      · exact this.2.2 (by simpa using ha)
+
+/-- **Whole strings, suffix model.** A body made of accepted tokens, closed by a quote (anything
+may follow): every token is replaced by its output and `|body| + 1` units are consumed.  If no
+escape occurs and the stream was empty the routine leaves it empty (the caller then uses the
+input span itself). -/
+theorem unEscapeB_string (w : Nat) (ts : List Tok) (h : ∀ t ∈ ts, t.ok = true) (rest : List Nat) :
+    unEscapeB w (ts.flatMap Tok.src ++ 34 :: rest) [] [] 0 =
+      (if ts.all Tok.isPlainTok then [] else ts.flatMap (Tok.out w), (ts.flatMap Tok.src).length + 1) := by
+  rw [unEscapeB_toks w ts h, unEscapeB_quote]
+  have := fold_step w ts h [] []
+  simp only [List.append_nil, List.nil_append] at this
+  unfold finishB
+  cases ha : ts.all Tok.isPlainTok with
+  | true => rw [this.2.1 ha]; simp
+  | false =>
+    have hne := this.2.2 ha
+    simp only [List.isEmpty_iff, hne, if_false, Bool.false_eq_true]
+    rw [this.1]; simp
+
+/-- The same when the body is ended by the length instead of a quote. -/
+theorem unEscapeB_string_eoi (w : Nat) (ts : List Tok) (h : ∀ t ∈ ts, t.ok = true) :
+    unEscapeB w (ts.flatMap Tok.src) [] [] 0 =
+      (if ts.all Tok.isPlainTok then [] else ts.flatMap (Tok.out w), (ts.flatMap Tok.src).length) := by
+  have e := unEscapeB_toks w ts h [] [] [] 0
+  rw [List.append_nil] at e
+  rw [e, unEscapeB.eq_def]
+  have := fold_step w ts h [] []
+  simp only [List.append_nil, List.nil_append] at this
+  simp only []
+  unfold finishB
+  cases ha : ts.all Tok.isPlainTok with
+  | true => rw [this.2.1 ha]; simp
+  | false =>
+    have hne := this.2.2 ha
+    simp only [List.isEmpty_iff, hne, if_false, Bool.false_eq_true]
+    rw [this.1]; simp
+
+
+/-! ### RFC 8259 items as tokens -/
+
+def Item.toTok : Item → Tok
+  | .unit c => .plain c
+  | .esc cp bigU up =>
+    let e := if bigU then 85 else 117
+    if cp < 0x10000 then
+      .u e (hexChar up (cp / 4096 % 16)) (hexChar up (cp / 256 % 16)) (hexChar up (cp / 16 % 16)) (hexChar up (cp % 16))
+    else
+      let hi := 0xD800 + (cp - 0x10000) / 0x400
+      let lo := 0xDC00 + (cp - 0x10000) % 0x400
+      .pair e (hexChar up (hi / 4096 % 16)) (hexChar up (hi / 256 % 16)) (hexChar up (hi / 16 % 16)) (hexChar up (hi % 16))
+        92 e (hexChar up (lo / 4096 % 16)) (hexChar up (lo / 256 % 16)) (hexChar up (lo / 16 % 16)) (hexChar up (lo % 16))
+
+theorem Item.toTok_src (i : Item) : i.toTok.src = i.src := by
+  cases i with
+  | unit c => rfl
+  | esc cp bigU up =>
+    simp only [Item.toTok, Item.src, jsonEscape]
+    split <;> simp [Tok.src, uEscape, hex4]
+
+theorem Item.toTok_plain (i : Item) : i.toTok.isPlainTok = i.isUnit := by
+  cases i with
+  | unit c => rfl
+  | esc cp bigU up => simp only [Item.toTok, Item.isUnit]; split <;> rfl
+
+theorem Item.toTok_ok_out (w : Nat) (i : Item) (h : i.ok) : i.toTok.ok = true ∧ i.toTok.out w = i.out w := by
+  cases i with
+  | unit c => exact ⟨h, rfl⟩
+  | esc cp bigU up =>
+    obtain ⟨h1, h2⟩ := h
+    have hU : ((if bigU = true then 85 else 117 : Nat) == 85 || (if bigU = true then 85 else 117 : Nat) == 117) = true := by
+      cases bigU <;> simp
+    simp only [Item.toTok, Item.out]
+    split
+    · have hv := hexFold_hex4 up cp (by omega)
+      unfold hex4 at hv
+      simp only [Tok.ok, Tok.out, hv, hU, Bool.true_and]
+      refine ⟨?_, trivial⟩
+      simp only [bne_iff_ne, ne_eq]
+      intro hc; have := (isHigh_iff cp (by omega)).1 hc; omega
+    · have hh : 0xD800 ≤ 0xD800 + (cp - 0x10000) / 0x400 ∧ 0xD800 + (cp - 0x10000) / 0x400 ≤ 0xDBFF := by omega
+      have hl : 0xDC00 ≤ 0xDC00 + (cp - 0x10000) % 0x400 ∧ 0xDC00 + (cp - 0x10000) % 0x400 ≤ 0xDFFF := by omega
+      have hv := hexFold_hex4 up (0xD800 + (cp - 0x10000) / 0x400) (by omega)
+      have hv2 := hexFold_hex4 up (0xDC00 + (cp - 0x10000) % 0x400) (by omega)
+      unfold hex4 at hv hv2
+      simp only [Tok.ok, Tok.out, hv, hv2, hU, Bool.true_and, pairCode]
+      refine ⟨?_, ?_⟩
+      · simp only [beq_iff_eq]; exact (isHigh_iff _ (by omega)).2 hh
+      · rw [pair_arith _ _ hh hl]; exact congrArg (toUTF w) (by omega)
+
+theorem flatMap_toTok_src (items : List Item) : (items.map Item.toTok).flatMap Tok.src = items.flatMap Item.src := by
+  induction items with
+  | nil => rfl
+  | cons i r ih => simp [List.flatMap_cons, Item.toTok_src, ih]
+
+theorem flatMap_toTok_out (w : Nat) (items : List Item) (h : ∀ i ∈ items, i.ok) :
+    (items.map Item.toTok).flatMap (Tok.out w) = items.flatMap (Item.out w) := by
+  induction items with
+  | nil => rfl
+  | cons i r ih =>
+    simp [List.flatMap_cons, (Item.toTok_ok_out w i (h i (by simp))).2, ih (fun j hj => h j (by simp [hj]))]
+
+theorem all_toTok_plain (items : List Item) : (items.map Item.toTok).all Tok.isPlainTok = items.all Item.isUnit := by
+  induction items with
+  | nil => rfl
+  | cons i r ih => simp [Item.toTok_plain, ih]
+
+/-! ### returned count; convenience step lemmas for the JSON area -/
+
+theorem finishB_ret (pend st : List Nat) (r : Nat) : (finishB pend st r).2 = r := by
+  unfold finishB; split <;> rfl
+
+/-- The count returned by the suffix model never exceeds `n + |s|` (and is `0` on rejection). -/
+theorem unEscapeB_ret_le (w : Nat) (s pend st : List Nat) (n : Nat) :
+    (unEscapeB w s pend st n).2 ≤ n + s.length := by
+  fun_induction unEscapeB w s pend st n <;> simp_all [finishB_ret] <;> omega
+
+theorem unEscapeA_ret_le (w : Nat) (c : List Nat) (len : Nat) (st s : List Nat) (r : Nat)
+    (hlen : len ≤ c.length) (h : unEscapeA w c len st = some (s, r)) : r ≤ len := by
+  rw [unEscapeA_eq_B w c len st hlen] at h
+  injection h with h
+  have := unEscapeB_ret_le w (c.take len) [] st 0
+  rw [h] at this
+  simp [List.length_take, Nat.min_eq_left hlen] at this
+  exact this
+
+/-- `\uXXXX` written with `hex4` (either case) for a value that is not a high surrogate, e.g.
+the control escapes `\u0000`..`\u001f`. -/
+theorem unEscapeB_u_hex4 (w e cp : Nat) (up : Bool) (s pend st : List Nat) (n : Nat) (he : e = 85 ∨ e = 117)
+    (hcp : cp < 0x10000) (hnh : ¬ (0xD800 ≤ cp ∧ cp ≤ 0xDBFF)) :
+    unEscapeB w (92 :: e :: (hex4 up cp ++ s)) pend st n = unEscapeB w s [] (st ++ pend ++ toUTF w cp) (n + 6) := by
+  have hv := hexFold_hex4 up cp hcp
+  unfold hex4 at hv ⊢
+  have hc : hexFold [hexChar up (cp / 4096 % 16), hexChar up (cp / 256 % 16), hexChar up (cp / 16 % 16), hexChar up (cp % 16)] 0
+      &&& 0xFC00 ≠ 0xD800 := by
+    rw [hv]; intro h; exact hnh ((isHigh_iff cp hcp).1 h)
+  have := unEscapeB_u w e _ _ _ _ s pend st n he hc
+  rw [hv] at this
+  simpa using this
+
 end Qentem.Unicode
